@@ -190,22 +190,31 @@ def check_property_file(prop, allowed_axioms=()):
     if rc != 0:
         res["problems"].append("Properties/%s.v does not compile" % prop)
         return res
-    # split the output into Print Assumptions blocks
-    blocks = re.split(r"(?m)^(?=Closed under the global context|Axioms:|Section Variables:)", out)
-    blocks = [b for b in blocks if b.startswith(("Closed under", "Axioms:", "Section Variables:"))]
-    # merge "Section Variables:" followed by "Axioms:" of the same command is not needed: we print none
+    # Print Assumptions output: either "Closed under the global context" or "Axioms:" followed by
+    # entries `name : type` (the type may start on the next line).  The `Check thm : ...` pin that
+    # follows prints `thm\n     : type`, which looks like an entry: entries named like one of the
+    # file's own theorems end the block.
+    blocks = re.split(r"(?m)^(?=Closed under the global context|Axioms:)", out)
+    blocks = [b for b in blocks if b.startswith(("Closed under", "Axioms:"))]
     if len(blocks) != len(names):
         res["problems"].append("expected %d Print Assumptions blocks, saw %d" % (len(names), len(blocks)))
+    own = set(thms) | set(names)
     for name, block in zip(names, blocks):
         if block.startswith("Closed under"):
             res["theorems"].append((name, []))
-        else:
-            axs = re.findall(r"(?m)^([A-Za-z0-9_'.]+)\s*:", block)
-            axs = [a for a in axs if a not in ("Axioms", "Section Variables")]
-            res["theorems"].append((name, axs))
-            for a in axs:
-                if a not in allowed_axioms:
-                    res["problems"].append("theorem %s depends on non-allow-listed axiom %s" % (name, a))
+            continue
+        axs = []
+        for m in re.finditer(r"(?m)^([A-Za-z_][A-Za-z0-9_'.]*)[ \t]*(?:\n[ \t]+)?:", block[len("Axioms:"):]):
+            ident = m.group(1)
+            if ident in own:
+                break
+            axs.append(ident)
+        res["theorems"].append((name, axs))
+        for a in axs:
+            if a not in allowed_axioms:
+                res["problems"].append("theorem %s depends on non-allow-listed axiom %s" % (name, a))
+        if not axs:
+            res["problems"].append("theorem %s: could not parse its Axioms block" % name)
     for t in thms:
         if t not in names:
             res["problems"].append("theorem %s has no Print Assumptions" % t)
